@@ -79,7 +79,12 @@ def main() -> int:
         for k, v in res.get("situations", {}).items():
             situations[k] += int(v)
         for k, v in res.get("counters", {}).items():
-            counters[k] += int(v)
+            if k.startswith("min_"):
+                counters[k] = min(counters.get(k, int(v)), int(v))
+            elif k.startswith("max_"):
+                counters[k] = max(counters.get(k, int(v)), int(v))
+            else:
+                counters[k] += int(v)
         if res.get("nontrivial"):
             keys.add(res.get("key") or _hash(case))
             extra_distinct += max(0, int(res.get("distinct_count", 1)) - 1)
